@@ -11,7 +11,7 @@ CONFIG = {
     "modelled": ["crypt.Fcrypt/cFcrypt", "crypt.desSetKey", "crypt.body/dEncrypt", "crypt.PermOp/HPermOp/c2l/l2c",
                  "cmbbs.GenPasswd", "cmbbs.CheckPasswd"],
     "assumptions": [
-        "clause (a) 'equals crypt(3)' is proved as table exactness (every SPtrans/skb/con_salt/cov_2char/shifts2 entry equals its FIPS-46 / crypt(3) definition) plus output format; full functional equality with a textbook DES-crypt is judged by P-hat against libc on every generated pair, not proved",
+        "clause (a) 'equals crypt(3)' is PARTIAL: proved are table exactness (every SPtrans/skb/con_salt/cov_2char/shifts2 entry equals its FIPS-46 / crypt(3) definition), the output format, and of the functional equality with the textbook Spec.crypt3 the whole key schedule for every password, the delivery of key and E(R) blocks to the S-boxes, FP and IP.FP=id (reflective GF(2)-linear circuit checker, Proofs/C02Lin.lean); not proved: the salt perturbation of E, the recombination of the eight S-box outputs, the induction over 25x16 rounds and the output packing - those are judged on every run by P-hat against libc and by running Spec.crypt3 next to the implementation",
         "clause (d) 'rejected for any other effective key' is not a theorem (DES-crypt collisions exist in principle); it is sampled by P-hat (all 56 single-bit key flips of sampled keys) and never presented as proof",
     ],
 }
